@@ -242,14 +242,28 @@ def sequence_and_rows(load, txns, transforms, ds, tmp, engine=None):
         out['rows_error'] = f'{cls(e)}: {e}'
         return out
     out['rows_in'], out['rows'] = len(rows), []
-    for p in parsed:
+    # the per-transaction tags must survive the analysis pass unchanged (they are what the report shows per transaction)
+    before = [sorted(p.get('tags') or []) for p in parsed]
+    try:
+        from tally.analyzer import analyze_transactions
+        stats = analyze_transactions(parsed)
+        after = [sorted(p.get('tags') or []) for p in parsed]
+        in_stats = {}
+        for m, info in stats.get('by_merchant', {}).items():
+            for t in info.get('transactions', []):
+                in_stats.setdefault((m, t.get('raw_description', t.get('description')), t.get('amount')), []).append(sorted(t.get('tags') or []))
+        out['analysis'] = {'before': before, 'after': after,
+                           'merchant_txn_tags': [[list(k[:2]) + [k[2]], v] for k, v in in_stats.items()]}
+    except Exception as e:  # noqa
+        out['analysis'] = {'error': f'{cls(e)}: {e}'}
+    for p, tags_before in zip(parsed, before):
         rules = load()
         dt = p['date'].date()
         ref = norm_call(p['raw_description'], rules, p['amount'], dt, p.get('field'), p.get('source'), transforms, p.get('location'), ds)
         mi = p.get('match_info')
         row = {'txn': {'d': p['raw_description'], 'amount': p['amount'], 'date': dt.isoformat(), 'field': p.get('field'),
                        'source': p.get('source'), 'location': p.get('location')},
-               'got': {'m': p['merchant'], 'c': p['category'], 's': p['subcategory'], 'tags': sorted(p.get('tags') or [])},
+               'got': {'m': p['merchant'], 'c': p['category'], 's': p['subcategory'], 'tags': tags_before},
                'ref': ref}
         if engine is not None:
             b = {'description': p['raw_description'], 'amount': p['amount'] or 0, 'field': copy.deepcopy(p.get('field')),
